@@ -135,6 +135,32 @@ PROPS = {
                 "Oracle: the Reader ends with io.EOF and io.ReadAll(source) afterwards returns exactly the suffix. Non-trivial = suffix non-empty. Sources that are not *bufio.Reader are a recorded known finding: drawn, counted as excluded, and replaced by a bufio source.",
         "assumptions": COMMON_ASSUME,
     },
+    "C06": {
+        "level": "exploration",
+        "tests": [{"name": "TestC06", "quick": 4000, "thorough": 60000}],
+        "rule": "cases = (gzip | zlib) x direction (fastgo Writer -> standard Reader, standard Writer -> fastgo Reader, fastgo -> fastgo) x level in {-2,-1,0,1,2,3,6,9} x payload recipe x Write/Flush partition x gzip header (Latin-1 name/comment of 0..511 bytes, extra nil/empty/up to 65535 bytes, mtime 0 or any uint32, OS byte) or zlib dictionary x optional earlier use of the Writer followed by Reset x Read sizes x source (bytes.Reader or *bufio.Reader of 16..64Ki), drawn by rapid. "
+                "Oracle: the reference container parser finds exactly one member whose payload is the data and whose trailer equals CRC-32/length (gzip) or Adler-32 (zlib) computed by the harness; fastgo's header bytes equal the standard library Writer's for the same header; the reading side returns the payload, equal header fields and io.EOF. "
+                "Non-trivial = payload non-empty and (accelerated level, optional header field, dictionary or Writer reuse).",
+        "assumptions": COMMON_ASSUME,
+    },
+    "C07": {
+        "level": "exploration",
+        "tests": [
+            {"name": "TestC07", "quick": 8000, "thorough": 120000},
+            {"name": "TestC07Ex", "kind": "plain"},
+        ],
+        "rule": "cases = well-formed container (gzip with 1-3 members or zlib; fastgo or standard encoder; payload mostly <= 4 KiB so corruption density is high) x corruption (1-3 bit flips / byte substitutions in the trailer, the header or anywhere) or truncation (drawn; every byte for fixed small containers, exhaustive) x Read sizes (destination pre-filled with a canary) x source (bytes.Reader, 16-byte or 4096-byte bufio). "
+                "Oracle: no panic; Read returns 0<=n<=len(p) and does not write past p; final error is io.EOF or a checksum/header/corrupt-input/unexpected-EOF error; io.EOF only if the reference container parser judges the corrupted input valid and the bytes handed out equal its payload; a still-valid input must read to EOF; truncation inside a member gives a prefix of the true payload and io.ErrUnexpectedEOF, a cut exactly between gzip members (or empty input) reads as a shorter valid file. "
+                "Non-trivial = the reference verdict on the corrupted input is not VALID.",
+        "assumptions": COMMON_ASSUME + ["32-bit checksum collisions are ignored"],
+    },
+    "C08": {
+        "level": "exploration",
+        "tests": [{"name": "TestC08", "quick": 4000, "thorough": 60000}],
+        "rule": "cases = 1-6 gzip members (payloads incl. empty, levels, fastgo/standard encoders, header fields) written back to back, optional trailing non-gzip bytes, *bufio.Reader source of size 16..64Ki, Read sizes; mode A = default multistream, mode B = Multistream(false) + Reset on the same buffered source per member. "
+                "Oracle: A: concatenated payloads then io.EOF, Header of the first member, standard library agrees; B: each member's payload and header in order, after each member the bytes still obtainable from the source (buffered + underlying) are exactly what follows that member, trailing data untouched, Reset with nothing left returns io.EOF. Non-trivial = >= 2 members.",
+        "assumptions": COMMON_ASSUME,
+    },
 }
 
 # Texts for MANIFEST.json, per claimed property.
@@ -222,5 +248,23 @@ MANIFEST_TEXT = {
         "text": "For every generated combination the bytes still obtainable from the source after io.EOF must be exactly the generated suffix; final blocks of every type and bit alignment vary the look-ahead held at the end.",
         "note": "Sources that are io.ByteReader but not *bufio.Reader over-read by design (known finding bytereader-sources-overread); that class is excluded by a predicate on the case and counted.",
         "design_ref": "DESIGN.md section 4, C05",
+    },
+    "C06": {
+        "technique": "property-based testing (rapid): cross-implementation round trip (fastgo <-> standard library) with generated payloads, headers, dictionaries and writer reuse; RFC 1950/1952 reference parser for trailer and header bytes",
+        "text": "Every generated container is taken apart by the harness's own RFC 1950/1952 parser (payload, trailer, header bytes) and read back by the other implementation; header bytes are compared with the standard library Writer's.",
+        "note": "zlib dictionary inputs on which Go's own zlib round trip fails (known finding std-dict-stored-first-block) are excluded by a stdlib-only predicate.",
+        "design_ref": "DESIGN.md section 4, C06",
+    },
+    "C07": {
+        "technique": "property-based testing (rapid) with generated corruptions and truncations of well-formed containers; reference container parser decides what the corrupted bytes really encode; exhaustive truncation of small containers",
+        "text": "For each corrupted input the reference parser decides whether it is (still) valid; fastgo may report io.EOF only then and only with exactly that payload. Destination buffers carry canaries so that a wrong byte count or an overrun is visible.",
+        "note": "Error kinds other than EOF are only required to be among checksum/header/corrupt-input/unexpected-EOF, as the property states.",
+        "design_ref": "DESIGN.md section 4, C07",
+    },
+    "C08": {
+        "technique": "property-based testing (rapid) over generated member sequences; exact-position oracle on the shared buffered source; standard library as twin",
+        "text": "Generated member sequences are read in multistream mode and member by member with Reset on the same *bufio.Reader; after every member the remaining source content must be exactly the following members plus trailing data.",
+        "note": "Sources are *bufio.Reader as the property requires.",
+        "design_ref": "DESIGN.md section 4, C08",
     },
 }
